@@ -34,6 +34,7 @@ TRANSLATORS = [
      ['Gen/UnitsGen1.v', 'Gen/UnitsGen2.v']),
     ('py2v_iso', [sys.executable, os.path.join(TOOLS, 'py2v_iso.py'), REPO_SRC, os.path.join(COQ, 'Gen')],
      ['Gen/IsoGen.v']),
+    ('py2v_purity', [sys.executable, os.path.join(TOOLS, 'py2v_purity.py'), REPO_SRC, os.path.join(COQ, 'Gen')], ['Gen/PurityGen.v']),
     ('py2v_formulas', [sys.executable, os.path.join(TOOLS, 'py2v_formulas.py'), REPO_SRC, os.path.join(COQ, 'Gen')],
      ['Gen/FormulasGen.v']),
     ('py2v_charact', [sys.executable, os.path.join(TOOLS, 'py2v_charact.py'), REPO_SRC, os.path.join(COQ, 'Gen')],
